@@ -328,6 +328,7 @@ class Daemon(object):
         """
         serializer_id = serializers.MarshalSerializer.serializer_id
         msg_seq = 0
+        current_context.response_annotations = {}
         try:
             msg = protocol.recv_stub(conn, [protocol.MSG_CONNECT])
             msg_seq = msg.seq
@@ -391,6 +392,7 @@ class Daemon(object):
         request_serializer_id = serializers.MarshalSerializer.serializer_id
         wasBatched = False
         isCallback = False
+        current_context.response_annotations = {}
         try:
             msg = protocol.recv_stub(conn, [protocol.MSG_INVOKE, protocol.MSG_PING])
         except errors.CommunicationError as x:
